@@ -165,6 +165,14 @@ def judge(t):
     if noDeps:
         # dependencies are never generated under noDeps; B (from H) already reflects that
         pass
+    # ground truth: a healthy module whose dependencies are all healthy is generated when the generator is asked for it -
+    # another module's failure earlier in the call does not spread to it
+    mb = cs.must_build(scn)
+    if mb and not t.world.fired:
+        for c in t.by('codegen.genCode'):
+            if c.mib in mb and not c.ok:
+                V('C09.2-ignore-errors', 'healthy module %s (all its dependencies healthy and available) failed in code generation: %s' % (c.mib, c.exc),
+                  what='healthy-module-failed', after_failures=sorted(x.mib for x in t.by('codegen.genCode') if not x.ok and x.seq < c.seq))
     puts = t.by('writer.putData')
     okput = {}
     for c in puts:
